@@ -1,29 +1,55 @@
+# ASan options of ./check plus a 16 MB quarantine: every evaluation builds and frees a Stepper, and
+# with the default 256 MB quarantine the freed memory is never reused (measured 6x slower, half
+# of it page-fault system time).  Use-after-free within the last 16 MB of frees is still caught.
+_ASAN = ("halt_on_error=0:detect_leaks=0:abort_on_error=0:handle_abort=0:allocator_may_return_null=1:"
+         "detect_stack_use_after_return=0:quarantine_size_mb=16")
 CHECK = {
     "level": "model_checking",
     "rule": ("explicit-state BFS over the real Stepper<host> bookkeeping: transition = one Stepper "
-             "call with p in {0,1,2} new primaries (alternating event ids, <= 3/4 in total) and a "
-             "complete outcome vector over the 8-letter alphabet {die,survive} x {0,1,2 secondaries} "
-             "x {sub-cut} for the active tracks; states are histories replayed on a fresh Stepper and "
-             "de-duplicated by canon = (per-slot status+charge class, queue of pending initializers "
-             "as charge classes, alive count); configurations: slots {1,2,3(,4)} x initializer "
-             "capacity {S,2S,16} x track order {none, init_charge, reindex_status, "
-             "reindex_particle_type, reindex_shuffle}; every transition is followed by an all-die "
-             "drain to queued=alive=0 and judged by a reference ledger (std::map) built from the "
-             "public step stream. non-trivial = a configuration whose search ran."),
+             "call with p in {0,1,2} new primaries (max_events = 2; the two primaries of one call "
+             "belong to the two different events 0 and 1, the first event alternates from call to "
+             "call; <= 3/4 primaries in total) and a complete outcome vector over the 11-letter "
+             "alphabet {die,survive} x {0,1,2 secondaries gamma/e-} x {sub-cut} + 'unchanged' "
+             "(secondaries span not rewritten) for the active tracks; states are histories replayed "
+             "on a fresh Stepper and de-duplicated by canon = (per-slot status+charge class, queue "
+             "of pending initializers as charge classes, alive count); EVERY child of every expanded "
+             "node is evaluated (one process, worker threads; the frontier is built in enumeration "
+             "order); configurations: slots {1,2,3(,4)} x initializer capacity {S,2S,16} x track "
+             "order {none, init_charge, reindex_status, reindex_particle_type, reindex_shuffle}, the "
+             "subset and depth per tier as listed under bounds; every "
+             "transition is followed by an all-die drain to queued=alive=0 and judged by a reference "
+             "ledger (std::map) built from the public step stream: ids, parents, step counts, "
+             "counters, species and start point of every child against the per-parent multiset of "
+             "emitted secondaries; a RuntimeError out of a Stepper call is accepted only if the "
+             "ledger's count of pending initializers really exceeds the capacity (exact fit must "
+             "work). non-trivial = a configuration whose search ran."),
     "assumptions": [
-        "scripted physics with a huge cross-section: every active track interacts in every step, "
-        "positions stay inside the inner box (no boundary / tracking-cut deaths in this check)",
-        "track/event ids are abstracted in canon; tested on the fly: the first two histories "
-        "reaching a canon are both expanded (their successors enter the same seen-set)",
-        "histories that exceed the initializer capacity are cut here (they are C16's cases)",
+        "scripted physics with a huge cross-section: every active track interacts in every step "
+        "(checked: interactions == step records in every call), positions stay inside the inner box "
+        "(no boundary / tracking-cut deaths in this check)",
+        "track/event ids are abstracted in canon; tested on the fly: the first two histories reaching "
+        "a canon are both expanded and, per injection count, the SETS of their successor canons "
+        "(over all outcome vectors) must be equal - a difference ends the run as a harness error "
+        "unless a violation was found as well",
+        "histories that really exceed the initializer capacity are cut here (they are C16's cases); "
+        "the in-place rule used to count pending initializers (first surviving secondary of a dying "
+        "parent takes its slot unless track order is init_charge) is the documented behaviour of "
+        "LocateAlive/ProcessSecondaries",
         "depth bound per configuration as reported; 'fixpoint:<cfg>' tags mark configurations whose "
         "frontier emptied before the bound",
     ],
-    "bounds": {"quick": {"depth_S1": 5, "depth_S2": 3, "depth_S3": 2, "max_primaries": 3},
-               "thorough": {"depth_S<=2": 6, "depth_S3": 4, "depth_S4": 3, "max_primaries": 4}},
+    "bounds": {"quick": {"max_primaries": 3,
+                         "depth": {"S1,Q1|2 (5 orders)": 5, "S1,Q16 (5 orders)": 4,
+                                   "S2,Q2 (none,init_charge,reindex_status)": 4,
+                                   "S2,Q4 (none,init_charge)": 2, "S3,Q3 (none)": 2}},
+               "thorough": {"max_primaries": 4,
+                            "depth": {"S1,Q1|2|16 (5 orders)": 6, "S2,Q2|4 (5 orders)": 6,
+                                      "S2,Q16 (none,init_charge)": 3, "S2,Q16 (reindex_*)": 2,
+                                      "S3,Q3 (5 orders)": 2, "S3,Q6 (none,init_charge)": 2,
+                                      "S3,Q16 (none)": 2, "S4,Q8 (none)": 2}}},
     "parts": [
-        {"name": "tracks", "harness": "c02_tracks", "flavour": "asan",
-         "shards": {"quick": 16, "thorough": 16}, "deadline": {"quick": 100, "thorough": 1200}},
+        {"name": "tracks", "harness": "c02_tracks", "flavour": "asan", "env": {"ASAN_OPTIONS": _ASAN},
+         "shards": {"quick": 1, "thorough": 1}, "deadline": {"quick": 100, "thorough": 900}},
     ],
 }
 META = {
@@ -36,5 +62,6 @@ META = {
              "initial one), for every slot count / capacity / track order of the lattice, is executed "
              "on the real Stepper and compared with a reference ledger; heap overflows in the index "
              "arithmetic are caught by ASan."),
-    "note": "Trusts the scripted physics (public Process/Model API) and the recorder (StepInterface).",
+    "note": "Trusts the scripted physics (public Process/Model API) and the recorder (StepInterface). "
+            "Runs as one process with up to 16 worker threads (VERIF_THREADS overrides).",
 }
